@@ -34,12 +34,18 @@ fn asm_block_programs() -> Vec<String> {
 }
 
 pub fn judge(src: &str, family: &str, budgets: &[usize], l: &mut Local) {
+    judge_sw(src, family, budgets, true, l)
+}
+
+/// `optimised` = false: the same row of budgets with both --debug-no-optimize-* switches given (a budget is a budget
+/// under every documented option)
+pub fn judge_sw(src: &str, family: &str, budgets: &[usize], optimised: bool, l: &mut Local) {
     let mut first_success: Option<(usize, String, Vec<(String, String)>)> = None;
     let mut outcomes = vec![];
     for b in budgets {
         l.eval();
         let _ = run::take_pass_trace();
-        let obs = run::assemble_str(src, &Opts::iters(*b));
+        let obs = run::assemble_str(src, &Opts { iters: *b, opt_static: optimised, opt_matcher: optimised, defines: vec![] });
         // hook H2: real passes executed and the states they reached (coverage only)
         for (_, _, _, _, digest) in run::take_pass_trace() {
             l.state(&(src, digest));
@@ -73,7 +79,7 @@ pub fn judge(src: &str, family: &str, budgets: &[usize], l: &mut Local) {
             bad = Some(("C09:unclean-outcome".into(), format!("neither clean success nor clean failure at budget {}", b)));
         }
         if let Some((key, why)) = bad {
-            l.violation(Violation { property: ID, key, what: format!("{}: {}", why, src.replace('\n', " / ")), case: json!({"family": family, "program": src, "budgets": budgets, "budget": b, "observed": obs.summary()}) });
+            l.violation(Violation { property: ID, key, what: format!("{}: {}", why, src.replace('\n', " / ")), case: json!({"family": family, "program": src, "budgets": budgets, "budget": b, "optimisations": optimised, "observed": obs.summary()}) });
         }
     }
     l.traces_validated += 1;
@@ -115,12 +121,14 @@ pub fn run(ctx: &Ctx) -> Report {
     let all: Vec<usize> = (1..=31).collect();
     let grid: Vec<(usize, bool)> = (0..=12).flat_map(|n| [(n, false), (n, true)]).collect();
     rep.absorb(par_cases(&grid, |(n, osc), l| judge(&c02::chain_prog(*n, *osc).render(), "skeleton-chain", &all, l)));
+    rep.absorb(par_cases(&grid, |(n, osc), l| judge_sw(&c02::chain_prog(*n, *osc).render(), "skeleton-chain-unoptimised", &all, false, l)));
     let lb: Vec<String> = c02::late_bool_progs().iter().map(|p| p.render()).collect();
     rep.absorb(par_cases(&lb, |s, l| judge(s, "late-boolean-directed", &all, l)));
     let sp: Vec<String> = c02::scope_parent_progs().iter().map(|p| p.render()).collect();
     rep.absorb(par_cases(&sp, |s, l| judge(s, "scope-parent-directed", &budgets, l)));
     let asmp = asm_block_programs();
     rep.absorb(par_cases(&asmp, |s, l| judge(s, "asm-block-and-assert", &all, l)));
+    rep.absorb(par_cases(&asmp, |s, l| judge_sw(s, "asm-block-and-assert-unoptimised", &all, false, l)));
     rep.extra("budgets", json!(budgets));
     rep.assumptions = vec!["the implementation is compared with itself across budgets; no fixed point is predicted".into()];
     rep.require_class("outcome-depends-on-budget");
@@ -134,7 +142,7 @@ pub fn replay(ctx: &Ctx, case: &serde_json::Value) -> i32 {
         let src = case["program"].as_str().unwrap_or("");
         let budgets: Vec<usize> = case["budgets"].as_array().map(|a| a.iter().filter_map(|x| x.as_u64().map(|v| v as usize)).collect()).unwrap_or_else(|| vec![1, 2, 3, 10]);
         let mut l2 = Local::new();
-        judge(src, "replay", &budgets, &mut l2);
+        judge_sw(src, "replay", &budgets, case["optimisations"].as_bool().unwrap_or(true), &mut l2);
         for v in l2.violations {
             println!("{}: {}", v.key, v.what);
             l.violation(v);
